@@ -473,7 +473,12 @@ def run(rng, res, tier, shard, nshards):
             cut = rng.randrange(len(h) + 1)
             if rng.random() < 0.5:
                 # after the cut nothing is linked or unlinked as a whole: assets only leave associations
+                from ..shadow import surviving_departures, shared_instance_ops
+                pre, post = shared_instance_ops(rng, case['spec'], h)
+                h.extend(pre)
                 cut = len(h)
+                h.extend(post)                                                # a departure that is certain to apply
+                h.extend(surviving_departures(rng, case['spec'], h, 2))
                 for _ in range(rng.randint(1, 5)):
                     h.append(['remove_from_assoc', ['live', rng.randrange(64)], ['live', rng.randrange(64)]])
             else:
